@@ -274,6 +274,9 @@ func TestVerifC16(t *testing.T) {
 				if r.Intn(6) == 0 {
 					h = 2 + r.Intn(4)
 				}
+				if r.Intn(10) == 1 {
+					w = 1 + r.Intn(12) // next to no room at all: still a frame of exactly the terminal's height
+				}
 				if r.Intn(10) == 0 {
 					w, h = 250+r.Intn(300), []int{h, 100 + r.Intn(200)}[r.Intn(2)] // very large terminals
 				}
